@@ -4,7 +4,7 @@ func init() {
 	props["C16"] = &propDef{
 		info: PropInfo{
 			Bounds: []string{
-				"operations: zoom change (out and in), merge, N-layer neighbourhood, quadkey->ID conversion, tile conversion, extended overlap; two symbolic input IDs (tiles) per call at zooms (3,3), (25,26)",
+				"operations: zoom change (out and in), merge, N-layer neighbourhood, quadkey->ID conversion, tile conversion, extended overlap; two symbolic input IDs (tiles) per call at zooms (3,3), (25,26), of equal precision and (zoom change, merge, overlap) of mixed precision",
 				"map iteration: every range over a map of <= 4 keys takes every order (forked by the executor; contents stay symbolic and are decided by the solver); more than 4 keys in one map = unsupported = inconclusive",
 				"permutation = swap of the two inputs, duplication = first element repeated at the end; inputs handed over in slices with spare capacity under the frame check",
 			},
@@ -17,14 +17,27 @@ func init() {
 				zs = append(zs, [2]int{25, 26})
 			}
 			for _, z := range zs {
-				for op := 0; op <= 4; op++ {
-					in := mk("detector", "VerifC16Op", cs("op", op, "h", z[0], "v", z[1]))
+				for op := 0; op <= 8; op++ {
+					c := cs("op", op, "h", z[0], "v", z[1], "mix", 0)
+					if op == 5 { // merge, mixed precision in the list
+						c = cs("op", 2, "h", z[0], "v", z[1], "mix", 1)
+					}
+					if op == 6 { // zoom change, mixed precision in the list
+						c = cs("op", 0, "h", z[0], "v", z[1], "mix", 1)
+					}
+					if op == 7 { // merge to the zoom of the coarser ID, mixed precision in the list
+						c = cs("op", 7, "h", z[0], "v", z[1], "mix", 1)
+					}
+					if op == 8 {
+						c = cs("op", 7, "h", z[0], "v", z[1], "mix", 0)
+					}
+					in := mk("detector", "VerifC16Op", c)
 					in.Unwind = 100
 					in.MaxSeconds = 2400
 					in.MaxPaths = 60000
 					is = append(is, in)
 				}
-				is = append(is, mk("detector", "VerifC16Overlap", cs("h", z[0], "v", z[1])))
+				is = append(is, mk("detector", "VerifC16Overlap", cs("h", z[0], "v", z[1], "mix", 0)), mk("detector", "VerifC16Overlap", cs("h", z[0], "v", z[1], "mix", 1)))
 			}
 			in := mk("detector", "VerifC16Tiles", nil)
 			in.Unwind = 100
@@ -33,8 +46,8 @@ func init() {
 		},
 		tv: func(tier string, seed int64) []*TV {
 			return []*TV{
-				{Harness: "VerifC16Op", PkgDir: "detector", Unwind: 100, Case: cs("op", 0, "h", 3, "v", 3), Inputs: map[string]string{"x0": "5", "y0": "2", "f0": "-3", "x1": "4", "y1": "3", "f1": "-4"}},
-				{Harness: "VerifC16Op", PkgDir: "detector", Unwind: 100, Case: cs("op", 2, "h", 3, "v", 3), Inputs: map[string]string{"x0": "5", "y0": "2", "f0": "-3", "x1": "5", "y1": "2", "f1": "-3"}},
+				{Harness: "VerifC16Op", PkgDir: "detector", Unwind: 100, Case: cs("op", 0, "h", 3, "v", 3, "mix", 0), Inputs: map[string]string{"x0": "5", "y0": "2", "f0": "-3", "x1": "4", "y1": "3", "f1": "-4"}},
+				{Harness: "VerifC16Op", PkgDir: "detector", Unwind: 100, Case: cs("op", 2, "h", 3, "v", 3, "mix", 0), Inputs: map[string]string{"x0": "5", "y0": "2", "f0": "-3", "x1": "5", "y1": "2", "f1": "-3"}},
 				{Harness: "VerifC16Tiles", PkgDir: "detector", Unwind: 100, Inputs: map[string]string{"x0": "5", "y0": "2", "z0": "3", "x1": "5", "y1": "2", "z1": "3"}},
 			}
 		},
